@@ -122,9 +122,10 @@ def _bounded(pid, text, note, design):
 
 _bounded('C07',
          "Bounded stand-in (not a proof): generated well-typed terms over the theory real are printed (ASCII and "
-         "Unicode, two line widths, cold and after other terms) and parsed back; types and sequents likewise.",
-         "No deductive part: the parser is a Lark table generated from a grammar string. Instantiations and exported "
-         "proof steps are not exercised.", '4 C07')
+         "Unicode, two line widths, cold and after other terms) and parsed back; types, sequents, instantiations, type "
+         "instantiations and exported proof steps (15 argument signatures, 4 highlight x Unicode settings) likewise.",
+         "No deductive part: the parser is a Lark table generated from a grammar string. Findings repaired: exported "
+         "subst_type / apply_induct steps and empty instantiations did not parse back.", '4 C07')
 _bounded('C09',
          "Bounded stand-in (not a proof): first_order_match on generated first-order and higher-order patterns "
          "against instances and unrelated targets: the result instantiates the pattern to the target up to "
@@ -133,8 +134,10 @@ _bounded('C09',
 _bounded('C10',
          "Bounded stand-in (not a proof): conversions (nat/real/propositional normalisers, traversal combinators "
          "with rewrite rules) on generated terms: equation about the given term, no hypotheses, exported proof "
-         "accepted by the checker, eval agrees; canonicity under rearrangement and idempotence.",
-         "Known finding recorded: proplogic.norm_full on members containing a literal and its negation.", '4 C10')
+         "accepted by the checker, eval agrees; canonicity under rearrangement (incl. powers against written-out "
+         "products) and idempotence, for nat.norm_full, real_norm_conv, auto.auto_conv and proplogic.norm_full.",
+         "Known findings recorded: proplogic.norm_full on members containing a literal and its negation; "
+         "nat.norm_full treats powers as opaque atoms; auto.auto_conv leaves powers >= 4 of sums unexpanded.", '4 C10')
 
 _bounded('C17',
          "Bounded stand-in (not a proof): CongClosure on all equation sets of <= 3 (thorough 4) constant / application "
@@ -156,14 +159,16 @@ _bounded('C11',
          "is just before the item: accepted definitions satisfy the conservativity side conditions (own analysis), "
          "extensions are well-typed on a scratch copy of the theory, export_json / get_display round trips give an "
          "equal item; an adversarial family of definitions (recursive, extra variables / type variables, non-variable "
-         "or repeated arguments, polymorphic, overloaded) must be rejected or satisfy the conditions.",
+         "or repeated arguments, polymorphic, overloaded) must be rejected or satisfy the conditions; generated "
+         "datatypes; inductive predicates over Booleans whose generated theorems are evaluated in the least model.",
          "No deductive part. Finding repaired: Definition.parse accepted recursive definitions, right sides with type "
          "variables absent from the constant's type, and non-variable arguments.", '4 C11')
 _bounded('C12',
          "Bounded stand-in (not a proof): (theory, limit) targets loaded in fresh subprocesses after 11 kinds of history "
          "(other theories, modules with import-time loads, other limits, failing loads, interrupted loads, repeated "
          "loads) are compared with the fresh load by a digest of theory.thy.data; a modified file is re-read and an "
-         "import cycle is reported (scratch copy of the tree).",
+         "import cycle is reported (scratch copy of the tree); the content of limited loads is compared with the theory "
+         "files (imports complete, own theorems before the limit only, limits at keys recurring in imports).",
          "No deductive part. Finding repaired: a load interrupted by an exception left a time-stamped cache entry "
          "without (or with partial) content.", '4 C12')
 _bounded('C14',
